@@ -1,6 +1,6 @@
 (* C11 — Control-flow obfuscation preserves function behaviour (the logic a theorem can carry
    without a semantics of Go; the passes themselves are exercised by the differential check). *)
-From Verif Require Import Base.Bytes Model.Cfg Proofs.CfgProofs Model.Flatten Proofs.FlattenProofs.
+From Verif Require Import Base.Bytes Model.Cfg Proofs.CfgProofs Model.Passes Proofs.PassesProofs.
 Open Scope N_scope.
 
 Theorem C11_dispatch_finds_target : forall table k t, NoDup (map fst table) -> In (k, t) table -> dispatch table k = Some t.
@@ -14,45 +14,74 @@ Proof. exact phi_swap_refuted. Qed.
 Theorem C11_trash_guard_never_true : forall a b o, In o (false_ops a b) -> cmp_eval o a b = false.
 Proof. exact trash_guard_never_true. Qed.
 
-(* applyFlattening as a graph transformation, for every graph, every block body and condition, every
-   key assignment with distinct non-zero keys: a call returns from block pc with program state s in
-   the flattened function iff it does in the original (so it also diverges iff the original does) *)
-Theorem C11_flatten_equivalent : forall (S : Type) (act : nat -> S -> S) (cond : nat -> S -> bool) (g : cfg) (keys : list N),
-  wf g = true -> (0 < length (all_edges g))%nat -> (length (all_edges g) <= length keys)%nat ->
+(* The passes of internal/ctrlflow/transform.go as graph transformations (Model/Passes.v), for every
+   graph, every interpretation of the function's own instructions and conditions, and the parameters
+   the pass picks: a fresh call returns or panics through instruction r with program state s in the
+   transformed function iff it does in the original (so it also diverges iff the original does). *)
+Theorem C11_pass_preserves_runs : forall (S : Type) (act : nat -> S -> S) (cond : nat -> S -> bool) (p : pass) (g : cfg) (start : nat),
+  pass_okb p (g, start) = true ->
+  forall s res, (exists fuel, run S act cond g fuel (start, env0, s) = Some res) <->
+                (exists fuel, run S act cond (fst (apply_pass p (g, start))) fuel (snd (apply_pass p (g, start)), env0, s) = Some res).
+Proof. intros S act cond p g start H. exact (pass_equiv S act cond p (g, start) H). Qed.
+(* any sequence of passes (trash blocks, splits, junk jumps, repeated flattening) *)
+Theorem C11_passes_compose : forall (S : Type) (act : nat -> S -> S) (cond : nat -> S -> bool) (ps : list pass) (g : cfg) (start : nat),
+  passes_okb ps (g, start) = true ->
+  forall s res, (exists fuel, run S act cond g fuel (start, env0, s) = Some res) <->
+                (exists fuel, run S act cond (fst (apply_passes ps (g, start))) fuel (snd (apply_passes ps (g, start)), env0, s) = Some res).
+Proof. intros S act cond ps g start H. exact (passes_equiv S act cond ps (g, start) H). Qed.
+(* flattening on its own, hypotheses spelled out *)
+Theorem C11_flatten_equivalent : forall (S : Type) (act : nat -> S -> S) (cond : nat -> S -> bool) (g : cfg) (x : nat) (keys : list N) (start : nat),
+  wf g = true -> unused x g = true -> (start < length g)%nat ->
+  (0 < length (all_edges g))%nat -> (length (all_edges g) <= length keys)%nat ->
   NoDup (firstn (length (all_edges g)) keys) -> Forall (fun k => k <> 0) (firstn (length (all_edges g)) keys) ->
-  forall s r, (exists fuel, run S act cond g fuel (0%nat, 0, s) = Some r) <->
-              (exists fuel, run S act cond (flatten keys g) fuel (flat_entry g, 0, s) = Some r).
-Proof. exact flatten_equivalent. Qed.
-(* what the correspondence check evaluates on every graph dumped from applyFlattening: when the two
-   deciders answer true, the dumped result [real] is equivalent to the dumped input [g] *)
-Theorem C11_flatten_checked_instance : forall (S : Type) act cond keys g real,
-  hyps_okb keys g = true -> cfg_eqb (flatten keys g) real = true ->
-  forall s r, (exists fuel, run S act cond g fuel (0%nat, 0, s) = Some r) <->
-              (exists fuel, run S act cond real fuel (flat_entry g, 0, s) = Some r).
-Proof. exact flatten_checked_instance. Qed.
-(* the hypotheses are met and both sides compute on a concrete loop *)
-Example C11_flatten_example :
-  let g := [ {| baction := AOrig 0; bterm := TJump 1 |};
-             {| baction := AOrig 1; bterm := TIf (COrig 1) 1%nat 2%nat |};
-             {| baction := AOrig 2; bterm := TRet |} ] in
-  let keys := [3; 1; 2] in
-  let act := fun (a : nat) (s : nat) => match a with 1%nat => (s + 2)%nat | _ => Datatypes.S s end in
+  forall (e : env) s, e x = 0 ->
+  forall res, (exists fuel, run S act cond g fuel (start, e, s) = Some res) <->
+              (exists fuel, run S act cond (flatten x keys start g) fuel (flat_entry g, e, s) = Some res).
+Proof. exact flatten_equiv. Qed.
+(* what the correspondence check evaluates on every sequence of graphs dumped from the real passes:
+   when the two deciders answer true, the dumped result [real] is equivalent to the dumped input [g] *)
+Theorem C11_passes_checked_instance : forall (S : Type) (act : nat -> S -> S) (cond : nat -> S -> bool) ps g start real,
+  passes_okb ps (g, start) = true -> cfg_eqb (fst (apply_passes ps (g, start))) real = true ->
+  forall s res, (exists fuel, run S act cond g fuel (start, env0, s) = Some res) <->
+                (exists fuel, run S act cond real fuel (snd (apply_passes ps (g, start)), env0, s) = Some res).
+Proof. intros S act cond ps g start real H1 H2. exact (passes_checked_instance S act cond ps g start real H1 H2). Qed.
+(* the hypotheses are met and both sides compute on a concrete loop under all four passes, flattening twice *)
+Example C11_passes_example :
+  let g := [ {| body := [IOrig 0]; bterm := TJump 1 |};
+             {| body := [IOrig 1; IOrig 2]; bterm := TIf (COrig 1) 1%nat 2%nat |};
+             {| body := [IOrig 3]; bterm := TRet 2 |} ] in
+  let ps := [PTrash 0 0 100 7 OLt 5 [IOrig 99]; PSplit 1 1; PJump 1 1; PFlatten 101 [3; 1; 2; 6; 5; 4; 7]; PFlatten 102 (map N.of_nat (seq 1 40))] in
+  let act := fun (a : nat) (s : nat) => match a with 1%nat => (s + 2)%nat | 99%nat => 1000%nat | _ => Datatypes.S s end in
   let cond := fun (c : nat) (s : nat) => Nat.ltb s 9%nat in
-  wf g = true /\ NoDup (firstn (length (all_edges g)) keys) /\ Forall (fun k => k <> 0) (firstn (length (all_edges g)) keys) /\
-  run nat act cond g 20 (0%nat, 0, 0%nat) = Some (2%nat, 10%nat) /\
-  run nat act cond (flatten keys g) 60 (flat_entry g, 0, 0%nat) = Some (2%nat, 10%nat).
-Proof.
-  cbv zeta. split; [reflexivity|]. split; [repeat constructor; cbn; intuition discriminate|].
-  split; [repeat constructor; discriminate|]. split; vm_compute; reflexivity.
-Qed.
+  passes_okb ps (g, 0%nat) = true /\
+  run nat act cond g 20 (0%nat, env0, 0%nat) = Some (2%nat, false, 11%nat) /\
+  run nat act cond (fst (apply_passes ps (g, 0%nat))) 4000 (snd (apply_passes ps (g, 0%nat)), env0, 0%nat) = Some (2%nat, false, 11%nat).
+Proof. cbv zeta. split; [vm_compute; reflexivity|]. split; vm_compute; reflexivity. Qed.
 (* a key equal to 0 (the value the dispatcher variable holds on entry) breaks it: the hypothesis is needed *)
 Theorem C11_flatten_zero_key_refuted : exists g keys,
   wf g = true /\ NoDup keys /\
-  run nat (fun _ s => Datatypes.S s) (fun _ _ => true) g 20 (0%nat, 0, 0%nat) <>
-  run nat (fun _ s => Datatypes.S s) (fun _ _ => true) (flatten keys g) 60 (flat_entry g, 0, 0%nat).
+  run nat (fun _ s => Datatypes.S s) (fun _ _ => true) g 20 (0%nat, env0, 0%nat) <>
+  run nat (fun _ s => Datatypes.S s) (fun _ _ => true) (flatten 7 keys 0 g) 60 (flat_entry g, env0, 0%nat).
 Proof.
-  exists [ {| baction := AOrig 0; bterm := TJump 1 |}; {| baction := AOrig 1; bterm := TJump 2 |}; {| baction := AOrig 2; bterm := TRet |} ], [1; 0].
+  exists [ {| body := [IOrig 0]; bterm := TJump 1 |}; {| body := [IOrig 1]; bterm := TJump 2 |}; {| body := [IOrig 2]; bterm := TRet 0 |} ], [1; 0].
   split; [reflexivity|]. split; [repeat constructor; cbn; intuition discriminate|]. vm_compute. discriminate.
+Qed.
+(* a trash guard that can be true breaks it (the function never returns): the hypothesis is needed *)
+Theorem C11_trash_true_guard_refuted : exists g,
+  wf g = true /\
+  run nat (fun _ s => Datatypes.S s) (fun _ _ => true) g 20 (0%nat, env0, 0%nat) = Some (0%nat, false, 2%nat) /\
+  forall fuel, run nat (fun _ s => Datatypes.S s) (fun _ _ => true) (add_trash g 0 0 9 3 OLt 5 []) fuel (0%nat, env0, 0%nat) = None.
+Proof.
+  exists [ {| body := [IOrig 0]; bterm := TJump 1 |}; {| body := [IOrig 1]; bterm := TRet 0 |} ].
+  split; [reflexivity|]. split; [reflexivity|].
+  intros fuel. destruct fuel as [|[|fuel]]; [reflexivity | reflexivity|].
+  cbn [run]. change (step nat (fun _ s => Datatypes.S s) (fun _ _ => true) (add_trash _ 0 0 9 3 OLt 5 []) (0%nat, env0, 0%nat)) with
+    (Next nat (2%nat, upd env0 9 3, 1%nat)).
+  change (step nat (fun _ s => Datatypes.S s) (fun _ _ => true) (add_trash _ 0 0 9 3 OLt 5 []) (2%nat, upd env0 9 3, 1%nat)) with
+    (Next nat (3%nat, upd env0 9 3, 1%nat)).
+  induction fuel as [|fuel IH]; [reflexivity|]. cbn [run].
+  change (step nat (fun _ s => Datatypes.S s) (fun _ _ => true) (add_trash _ 0 0 9 3 OLt 5 []) (3%nat, upd env0 9 3, 1%nat)) with
+    (Next nat (3%nat, upd env0 9 3, 1%nat)). exact IH.
 Qed.
 
 Print Assumptions C11_dispatch_finds_target.
@@ -60,7 +89,10 @@ Print Assumptions C11_dispatch_no_spurious_target.
 Print Assumptions C11_phi_sequential_equals_parallel.
 Print Assumptions C11_phi_swap_refuted.
 Print Assumptions C11_trash_guard_never_true.
+Print Assumptions C11_pass_preserves_runs.
+Print Assumptions C11_passes_compose.
 Print Assumptions C11_flatten_equivalent.
-Print Assumptions C11_flatten_example.
+Print Assumptions C11_passes_checked_instance.
+Print Assumptions C11_passes_example.
 Print Assumptions C11_flatten_zero_key_refuted.
-Print Assumptions C11_flatten_checked_instance.
+Print Assumptions C11_trash_true_guard_refuted.
